@@ -103,7 +103,9 @@ Definition cache_of (st : state) := m_cache (st_mem st).
 Section Proofs.
   Variable b64enc : str -> str.
   Variable b64dec : str -> option str.
-  Hypothesis b64_roundtrip : forall s, b64dec (b64enc s) = Some s.
+  (* [b64ok]: the strings the codec is specified on (byte strings for the concrete codec) *)
+  Variable b64ok : str -> Prop.
+  Hypothesis b64_roundtrip : forall s, b64ok s -> b64dec (b64enc s) = Some s.
   Hypothesis b64_nonempty : forall s, b64enc s = [] -> s = [].
 
   Notation step := (step b64enc b64dec).
@@ -116,22 +118,23 @@ Section Proofs.
   (* ----- the codec: encodeAuth / decodeAuth / AuthConfig ----- *)
   Lemma codec_roundtrip c :
     contains colon (c_user c) = false ->
+    b64ok (c_user c ++ colon :: c_pass c) ->
     cred_of_entry (entry_of_cred c) = RCred c.
   Proof.
-    intro NC. destruct c as [u p r a]. simpl in *.
+    intros NC OK. destruct c as [u p r a]. simpl in *.
     unfold entry_of_cred, cred_of_entry, cred_of_fields, encode_auth. simpl.
     destruct u as [|u0 u'] eqn:EU.
     - destruct p as [|p0 p'] eqn:EP; [reflexivity|].
       destruct (b64enc ([] ++ colon :: p0 :: p')) eqn:EE.
       + apply b64_nonempty in EE. discriminate.
       + rewrite <- EE. unfold decode_auth. rewrite EE, <- EE.
-        rewrite b64_roundtrip. simpl. reflexivity.
+        rewrite (b64_roundtrip _ OK). simpl. reflexivity.
     - rewrite <- EU in *.
       assert (NE : u ++ colon :: p <> []) by (subst u; discriminate).
       destruct (b64enc (u ++ colon :: p)) eqn:EE.
       + apply b64_nonempty in EE. contradiction.
       + rewrite <- EE. unfold decode_auth. rewrite EE, <- EE.
-        rewrite b64_roundtrip.
+        rewrite (b64_roundtrip _ OK).
         rewrite (index_of_app_fresh colon u p NC).
         rewrite firstn_app_exact, skipn_S_app. reflexivity.
   Qed.
@@ -200,12 +203,13 @@ Section Proofs.
   (* ----- C18_roundtrip ----- *)
   Lemma roundtrip st a c h :
     contains colon (c_user c) = false ->
+    b64ok (c_user c ++ colon :: c_pass c) ->
     (forall o, In o h -> ~ writes a o) ->
     snd (step st (Put a c)) = ROk /\
     get_candidates (cache_of (run (fst (step st (Put a c))) h)) a = [RCred c] /\
     snd (step (run (fst (step st (Put a c))) h) (Get a)) = RCred c.
   Proof.
-    intros NC NW. destruct (put_ok st a c NC) as [R C].
+    intros NC OK NW. destruct (put_ok st a c NC) as [R C].
     assert (L : lookup a (cache_of (run (fst (step st (Put a c))) h)) = Some (entry_of_cred c)).
     { rewrite run_cache_untouched by exact NW. rewrite C. apply lookup_set_eq. }
     assert (G : get_candidates (cache_of (run (fst (step st (Put a c))) h)) a = [RCred c]).
